@@ -401,7 +401,7 @@ def conc(case):
 def jobs(tier, seed):
     q = tier == "quick"
     out = []
-    base = dict(R=2 if q else 3, L=3 if q else 4)
+    base = dict(R=2 if q else 3, L=3)          # (three rows of up to four cells: 1.2 million paths, six jobs beyond their hour -- thorough adds the third row only)
     common_ops = ["roundtrip", "shape", "rowint", "rowlist", "rowmask", "elem", "rowsum", "rowany", "rowall", "ravel", "concat", "neg", "rs", "sr", "rc", "cr", "colsum"]
     for variant in ("ragged", "2d"):
         for op in common_ops:
